@@ -1,7 +1,6 @@
 package smtp
 
 import (
-	"bytes"
 	"crypto/tls"
 	"encoding/base64"
 	"errors"
@@ -1415,6 +1414,10 @@ func (c *Conn) readLine() (string, error) {
 		// were a complete line; it must not be executed.
 		return "", ErrTooLongLine
 	}
+	if limit := c.server.MaxLineLength; err == nil && limit > 0 && len(line)+1 > limit {
+		// The line was buffered while the limit was lifted for a BDAT chunk.
+		return "", ErrTooLongLine
+	}
 	if r := c.lineLimitReader; err == nil && r.err != nil && r.last != '\n' && c.text.R.Buffered() == 0 {
 		// The connection has failed (the peer is gone, a timeout) and this is
 		// what was left of the input, not terminated by a line feed: bufio
@@ -1426,50 +1429,12 @@ func (c *Conn) readLine() (string, error) {
 }
 
 // resumeLineLimit puts the line length limit back after a BDAT chunk has been
-// taken off the stream.
+// taken off the stream. What is buffered behind the chunk was read while the
+// limit was lifted: the raw limiter has not seen it and cannot tell command
+// lines from the payload of a pipelined next chunk, so it starts afresh and
+// readLine checks the length of every line it hands out.
 func (c *Conn) resumeLineLimit() {
-	pending, _ := c.text.R.Peek(c.text.R.Buffered())
-	r := c.lineLimitReader
-	r.resume(c.server.MaxLineLength, nil)
-	if r.LineLimit == 0 {
-		return
-	}
-	// The command lines that are buffered already are counted now. Behind a
-	// BDAT command line that announces a size comes the payload of that
-	// chunk, which is not made of command lines: it is skipped.
-	for len(pending) > 0 {
-		j := bytes.IndexByte(pending, '\n')
-		if j < 0 {
-			r.count(pending)
-			return
-		}
-		line := pending[:j+1]
-		if !r.count(line) {
-			return
-		}
-		pending = pending[j+1:]
-		cmd, arg, err := parseCmd(string(line))
-		if err != nil {
-			continue
-		}
-		switch cmd {
-		case "BDAT":
-			if args := strings.Fields(arg); len(args) > 0 {
-				if size, err := strconv.ParseUint(args[0], 10, 32); err == nil {
-					if uint64(len(pending)) <= size {
-						return
-					}
-					pending = pending[size:]
-				}
-			}
-		case "DATA", "AUTH", "STARTTLS":
-			// The lines behind these may not be read as commands (a message
-			// body, the answers to challenges): a line that looks like a BDAT
-			// command there announces nothing, so nothing more is skipped.
-			r.count(pending)
-			return
-		}
-	}
+	c.lineLimitReader.resume(c.server.MaxLineLength, nil)
 }
 
 func (c *Conn) reset() {
